@@ -5,7 +5,7 @@ import random
 
 RES = {0: "file", 1: "pipe", 2: "tcp", 3: "udp", 4: "unix"}
 OPS = {1: "read", 2: "multi", 3: "arrive", 4: "poll", 5: "drive", 6: "dropslot", 7: "drophandle",
-       8: "check", 9: "closepeer", 10: "droprt", 11: "recvfrom", 12: "multifrom", 13: "wrap", 14: "multimsg", 15: "await"}
+       8: "check", 9: "closepeer", 10: "droprt", 11: "recvfrom", 12: "multifrom", 13: "wrap", 14: "multimsg", 15: "await", 17: "multiat", 18: "eofread"}
 
 
 def next_pow2(n):
@@ -164,6 +164,68 @@ def gen_stream_exhaust(rng):
     return case
 
 
+def gen_failing_reads(rng):
+    """managed reads that fail after the kernel consumed a ring buffer (io_uring: the completion carries the
+    error AND the buffer id; fallback pool: the operation popped its buffer at creation): at least pool-size + 1
+    of them, interleaved with good reads, EOF reads, cancels and held handles; then, with no handle alive, a
+    good read must still get a buffer"""
+    drv = rng.choice([0, 0, 1])
+    size = rng.choice([1, 1, 2, 2, 3, 4])
+    buflen = rng.choice([2, 4, 8, 16])
+    n = next_pow2(size)
+    steps = []
+    nslots = 0
+    handles = 0      # upper bound of handle indices handed out so far
+    fails = 0
+
+    def bad():
+        k = rng.random()
+        if k < 0.45:
+            return (1, rng.choice([6, 7, 8]), rng.choice([0, 0, 1, buflen]))      # ReadManagedAt
+        if k < 0.75:
+            return (1, rng.choice([9, 10]), rng.choice([0, 0, 3]))                 # ReadManaged
+        if k < 0.88:
+            return (2, rng.choice([9, 10]), 0)                                     # ReadMulti
+        return (17, rng.choice([0, 6, 7]), 0)                                      # ReadMultiAt
+
+    while fails < n + rng.randrange(1, 2 * n + 3):
+        r = rng.random()
+        if r < 0.6:
+            steps.append(bad())
+            s = nslots
+            nslots += 1
+            fails += 1
+            if rng.random() < 0.15:
+                steps.append((4, s, 0))
+                steps.append((6, s, 0))                    # cancelled after submission
+            elif rng.random() < 0.1:
+                steps.append((6, s, 0))                    # dropped before the first poll
+            else:
+                steps.append((15, s, 0))
+        elif r < 0.8:
+            steps.append((rng.choice([1, 1, 18]), 0, rng.choice([0, 1, buflen])))   # a good read / a read at EOF
+            s = nslots
+            nslots += 1
+            steps.append((15, s, 0))
+            handles += 1
+        elif r < 0.9 and handles:
+            steps.append((7, rng.randrange(handles), 0))
+        elif r < 0.95:
+            steps.append((5, 0, 0))
+        else:
+            steps.append((8, 0, 0))
+    # every handle goes; a good read must succeed now
+    for h in range(handles):
+        steps.append((7, h, 0))
+    steps.append((1, 0, 0))
+    steps.append((15, nslots, 0))
+    steps.append((8, 0, 0))
+    case = [drv, size, buflen, len(steps)]
+    for (o, a, b) in steps:
+        case += [o, a, b]
+    return case
+
+
 def generate(seed, n):
     rng = random.Random(seed * 7919 + 7)
     out = []
@@ -171,8 +233,10 @@ def generate(seed, n):
         k = rng.random()
         if k < 0.10:
             out.append(gen_exhaust(rng))
-        elif k < 0.24:
+        elif k < 0.22:
             out.append(gen_stream_exhaust(rng))
+        elif k < 0.32:
+            out.append(gen_failing_reads(rng))
         elif k < 0.3:
             out.append(gen_program(rng, adversarial=True))
         else:
@@ -185,6 +249,9 @@ def describe(case):
     kind = "multi" if (2 in ops or 12 in ops or 14 in ops) else "single"
     if (2 in ops or 12 in ops or 14 in ops) and (1 in ops or 11 in ops):
         kind = "mixed"
+    res = case[5::3]
+    if any(o in (1, 2, 17) and a >= 6 for o, a in zip(ops, res)) or 17 in ops:
+        kind = "failing"
     tail = "wrap" if 13 in ops else "droprt" if 10 in ops else "await" if 15 in ops else \
         "cancel" if 6 in ops else "plain"
     return ("uring" if case[0] == 0 else "poll") + "/" + kind + "/" + tail
